@@ -1302,7 +1302,8 @@ fn main() {
 
     // ---- generated cases
     let n_cases = args.tier.pick(8usize, 81usize);
-    let shrink_iters = args.tier.pick(4usize, 10usize);
+    // every shrink step is a full CLI run of the candidate case; VERIF_SHRINK_ITERS overrides the bound (0 = report unshrunk)
+    let shrink_iters = std::env::var("VERIF_SHRINK_ITERS").ok().and_then(|v| v.parse().ok()).unwrap_or(args.tier.pick(4usize, 10usize));
     let strat = case_strat();
     let mut runner = vcore::gen::runner(args.subseed(16));
     let mut trees = vcore::gen::batch(&strat, &mut runner, n_cases);
